@@ -34,7 +34,7 @@ def conv_jobs(tier):
     for kind, kn in ((0, "register"), (1, "counter")):
         for d in (-1, n - 1, 1):
             js.append({"id": f"O4.converge.{kn}.n{n}.del{d}", "func": "VerifH_C02_Deliver",
-                       "conf": {"n": n, "kind": kind, "del": d, "deliveries": 3, "hasfield": 1, "class": 2, "dag": "", "orders": "all", "shortid": 0},
+                       "conf": {"n": n, "kind": kind, "del": d, "deliveries": 3, "hasfield": 1, "class": 2, "dag": "", "orders": "all", "shortid": 0, "for": "C01", "fieldmask": 0},
                        "_obligation": "O4", "_covers": ["delivered"], "unwind": 40, "reset_mode": True})
     return js
 
